@@ -10,11 +10,14 @@ well-formedness (Adsg.Table.WF) the driver evaluates.
 from .. import encmgr
 from . import c09
 
-RULE = ('size sweep: 1 source with exactly one connection onto k optional targets (exactly k valid matrices) for every k = 2..40 (quick) / 2..130 (thorough); seeded connector settings (1-3 sources x 1-4 targets over the C09 degree alphabet, exclusions, 1-3 existence '
-        'patterns incl. absent nodes and override lists) x every registered encoder factory x {default imputer, one '
-        'alternative imputer}; per manager the full declared vector space when <= 250 vectors (else 250 samples) + 4 '
-        'out-of-range / too-long vectors per pattern; a case is one (settings, encoder, imputer, pattern); non-trivial = '
-        'the pattern has >= 2 valid matrices; distinct by content hash')
+RULE = ('size sweep: 1 source with exactly one connection onto k optional targets (exactly k valid matrices) for every '
+        'k = 2..36 (quick) / 2..130 (thorough); seeded connector settings (1-3 sources x 1-4 targets over the C09 degree '
+        'alphabet, exclusions, 1-3 existence patterns incl. absent nodes and override lists), every third setting uniform '
+        '(all sources alike, all targets alike: the shapes of the pattern encoders) x every registered encoder factory x '
+        '{default imputer, one alternative imputer}; per manager the full declared vector space when <= 250 vectors (else '
+        '250 samples; 60 for lazy / pattern encoders on settings with more than 6 cells) + 4 out-of-range / too-long '
+        'vectors per pattern; a case is one (settings, encoder, imputer, pattern); non-trivial = the pattern has >= 2 '
+        'valid matrices; distinct by content hash')
 BUDGET = {'quick': 100, 'thorough': 1500}
 JOBS = {'quick': 4, 'thorough': 16}
 ASSUMPTIONS = ['encoder-specific encode/decode algorithms are table producers validated per instance (Table.WF, matrices of '
@@ -33,6 +36,18 @@ def gen_case(rng):
     for _ in range(rng.choice([0, 1, 1, 2])):
         exists.append(c09.gen_existence(rng, ns, nt, p_list=.3))
     return sspec, tspec, excluded, exists
+
+
+def gen_uniform(rng):
+    """All sources alike and all targets alike - the shapes the pattern encoders are made for (combining, assigning,
+    partitioning, permuting, ...), which random per-node degrees almost never hit."""
+    ns, nt = rng.choice([(1, 2), (1, 3), (1, 4), (2, 2), (2, 3), (3, 2), (3, 3), (2, 4)])
+    s_ = (rng.choice(c09.ALPHA[:10]), rng.random() < .5)
+    t_ = (rng.choice(c09.ALPHA[:10]), rng.random() < .5)
+    exists = [{'src': {}, 'tgt': {}}]
+    if rng.random() < .3:
+        exists.append(c09.gen_existence(rng, ns, nt, p_list=0.))
+    return [s_] * ns, [t_] * nt, [], exists
 
 
 def check_case(ctx, rep, sspec, tspec, excluded, exists, facs=None, imputers='sample'):
@@ -93,11 +108,12 @@ def run(ctx, rep):
     n = ctx.pick(160, 3000)
     i = 0
     for i in range(n):
-        case = gen_case(ctx.rng)
+        uniform = i % 3 == 2
+        case = gen_uniform(ctx.rng) if uniform else gen_case(ctx.rng)
         if not ctx.mine(i):
             continue
         check_case(ctx, rep, *case)
-        rep.count('stream:seeded')
+        rep.count('stream:uniform' if uniform else 'stream:seeded')
         if ctx.out_of_time():
             break
     rep.notes.append('settings generated: %d; size sweep up to %d valid matrices' % (i + 1, kmax))
